@@ -256,6 +256,9 @@ def generate():
     fm = P.load("furl.py")
     fenv = P.module_consts(fm)
     dec = P.find_def(fm, "decode_furl")
+    for fname in ("decode_furl", "encode_furl"):
+        if P.find_def(fm, fname).decorator_list:
+            U("furl.%s is decorated (cached / wrapped): its body is no longer what runs" % fname)
     emit_pattern("AUTH_STURDYREF_RE", compiled_pattern(fm, fenv, "AUTH_STURDYREF_RE"), uses(dec, "AUTH_STURDYREF_RE"))
     # shape facts of decode_furl
     need(dec, ["furl = six.ensure_str(furl)",
